@@ -96,6 +96,7 @@ def run_pipeline(tier, seed, log=print):
             gen = l1.generate(tier, seed, wd, log)
             import apalache
             lemma = apalache.discharge(wd, log)
+            lemma["tlaps"] = apalache.tlaps(wd, log, "SlotProof", ["SlotAccounting"])
             viol = list(mc["violations"])
             for ob in lemma["refuted"]:
                 viol.append({"c": "C02.model", "kf": "", "at": 0, "ent": -1, "driver": "apalache:" + ob, "replay": "-"})
